@@ -498,6 +498,13 @@ func Run(args []string) int {
 			return 2
 		}
 	}
+	slices, _ := strconv.Atoi(f.Extra["slices"])
+	if slices < 1 {
+		slices = 1
+	}
+	if !exhaustive(run, f.Tier, int(f.Seed%uint64(slices)), slices) {
+		return 2
+	}
 	return 0
 }
 
